@@ -1,5 +1,5 @@
 (* one program per line, prefix encoding:
-   G <tgt> | T | B | C | U n | K m k.. | I nb .. ne .. | F r nb .. ne .. | W nb .. | M np p.. nb .. | A np p.. nk k.. nb .. | L nb ..
+   G sc <tgt> | T | B | C | U n | K m k.. | I nb .. ne .. | F r nb .. ne .. | W w nb .. | Z nb .. | M np p.. nb .. | A np p.. nk k.. nb .. | L nb ..
    the line is:  <n> <stmt>*n       output:  E   or   <ok|bad> <facts...> *)
 open Pywf_x
 let rec pos_of_int n = if n = 1 then XH else if n land 1 = 0 then XO (pos_of_int (n lsr 1)) else XI (pos_of_int (n lsr 1))
@@ -19,13 +19,14 @@ let rec tgt () =
 let rec stmts k = if k = 0 then [] else let s = stmt () in s :: stmts (k - 1)
 and stmt () =
   match next () with
-  | "G" -> SAssignT (tgt ())
+  | "G" -> let sc = int () = 1 in SAssignT (sc, tgt ())
   | "T" -> SText | "B" -> SBreak | "C" -> SContinue
   | "U" -> SUse (n_of_int (int ()))
   | "K" -> let m = int () in SCallKw (names m)
   | "I" -> let b = stmts (int ()) in let e = stmts (int ()) in SIf (b, e)
   | "F" -> let r = int () = 1 in let b = stmts (int ()) in let e = stmts (int ()) in SFor (r, b, e)
-  | "W" -> SInline (stmts (int ()))
+  | "W" -> let w = int () = 1 in SInline (w, stmts (int ()))
+  | "Z" -> SSame (stmts (int ()))
   | "M" -> let ps = names (int ()) in SMacro (ps, stmts (int ()))
   | "A" -> let ps = names (int ()) in let ks = names (int ()) in SCallBlock (ps, ks, stmts (int ()))
   | "L" -> SBlock (stmts (int ()))
@@ -41,7 +42,7 @@ let () =
     let line = input_line stdin in
     toks := String.split_on_char ' ' line |> List.filter (fun x -> x <> "");
     let prog = stmts (int ()) in
-    match gens false prog with
+    match gens false false false prog with
     | SyntaxErr -> print_endline "E"
     | Ok t ->
       let ok = List.for_all (py_ok toy false) t in
